@@ -118,7 +118,7 @@ def dependsMap : Val.KVs → Out Val.KVs
 def dependsList : List Val → Val.KVs → Out Val.KVs
   | [], acc => .ok acc
   | .str k :: r, acc => dependsList r (Val.insert k (.map [("condition", .str "service_started"), ("required", .bool true)]) acc)
-  | _ :: _, _ => .panic "transform.transformDependsOn"
+  | _ :: _, _ => .err "type"
 
 def transformDependsOn : Val → Out Val
   | .map m => match dependsMap m with | .ok r => .ok (.map r) | .err e => .err e | .panic e => .panic e
@@ -138,7 +138,7 @@ def transformEnvFile : Val → Out Val
 def networksList : List Val → Val.KVs → Out Val.KVs
   | [], acc => .ok acc
   | .str k :: r, acc => networksList r (Val.insert k .null acc)
-  | _ :: _, _ => .panic "transform.transformServiceNetworks"
+  | _ :: _, _ => .err "type"
 
 def transformServiceNetworks : Val → Out Val
   | .seq l => match networksList l [] with | .ok r => .ok (.map r) | .err e => .err e | .panic e => .panic e
@@ -223,7 +223,7 @@ def leaf (h : Option String) (ign : Bool) (v : Val) : Out Val :=
     else if h = "transformMaybeExternal" then
       match v with
       | .null => .ok .null
-      | _ => .panic "transform.transformMaybeExternal"
+      | _ => .err "type"
     else if h = "transformFileMount" then transformFileMount v
     else if h = "transformKeyValue" then transformKeyValue ign v
     else if h = "transformDependsOn" then transformDependsOn v
